@@ -28,6 +28,7 @@ var pureStdlib = map[string]bool{
 	"math.Abs": true, "math.Floor": true, "math.Ceil": true, "math.Round": true, "math.Trunc": true, "math.IsNaN": true, "math.IsInf": true,
 	"math.Float64bits": true, "math.Float64frombits": true, "math.Float32bits": true, "math.Float32frombits": true, "math.Pow": true, "math.Mod": true,
 	"math.RoundToEven": true, "math.Inf": true, "math.NaN": true, "math.Signbit": true, "math.Sqrt": true, "math.Log10": true,
+	"github.com/sirupsen/logrus.Infof": true, "github.com/sirupsen/logrus.Errorf": true, "github.com/sirupsen/logrus.Warnf": true, "github.com/sirupsen/logrus.Debugf": true,
 	"runtime/debug.Stack": true, "runtime/trace.StartRegion": true, "(*runtime/trace.Region).End": true,
 	"unicode.IsDigit": true, "unicode.IsLetter": true, "unicode.IsSpace": true, "unicode.IsUpper": true, "unicode.IsLower": true,
 	"unicode.ToLower": true, "unicode.ToUpper": true, "unicode.IsPunct": true, "unicode.IsNumber": true, "unicode.IsControl": true, "unicode.IsPrint": true,
@@ -35,7 +36,7 @@ var pureStdlib = map[string]bool{
 	"crypto/sha1.Sum": true,
 	"time.Now": true,
 	"(*gopkg.in/src-d/go-errors.v1.Kind).New": true, "gopkg.in/src-d/go-errors.v1.NewKind": true, "(*gopkg.in/src-d/go-errors.v1.Kind).Is": true,
-	"(time.Duration).String": true, "(time.Time).Unix": true, "(time.Time).UnixMicro": true, "(time.Time).Hour": true, "(time.Time).Minute": true,
+	"(time.Duration).String": true, "(time.Duration).Seconds": true, "(time.Time).Sub": true, "time.Since": true, "(time.Time).Unix": true, "(time.Time).UnixMicro": true, "(time.Time).Hour": true, "(time.Time).Minute": true,
 	"(time.Time).Second": true, "(time.Time).Nanosecond": true, "(time.Time).IsZero": true, "(time.Time).Equal": true, "(time.Time).Before": true, "(time.Time).After": true,
 	"(*github.com/cockroachdb/apd/v3.Decimal).Cmp": true, "(*github.com/cockroachdb/apd/v3.Decimal).String": true,
 	"(github.com/shopspring/decimal.Decimal).String": true, "(github.com/shopspring/decimal.Decimal).Cmp": true,
@@ -307,6 +308,7 @@ func (vc *VC) call(in ssa.Instruction, c *ssa.CallCommon, st *State, reach Term)
 			vc.oblige("safe:nil", "funcvalue", reach, not(eq(fv.t, "0")), pos, vc.construct(pos))
 		}
 		if key, ok := vc.pureFieldOfValue(c.Value); ok {
+			vc.noteInvoked(st, fv.t)
 			return vc.pureFieldApply(key, fv, args, rt)
 		}
 	}
@@ -498,6 +500,9 @@ func (vc *VC) contractCall(fi *FuncInfo, args []Val, st *State, reach Term, rt t
 		}
 		vc.havocByTypes(ts, fi.fc.IsIface, st)
 	}
+	if fi.fc.Tallies != "" {
+		vc.tallyCall(fi, env, st)
+	}
 	// ghost state of an atomic cell: after the call it describes the callee's activation (its last
 	// load and its successful compare-and-swap, if any), which is what the callee's postconditions say
 	if len(fi.fc.Cas) > 0 || fi.mentionsAtomicGhost() {
@@ -657,8 +662,8 @@ func (vc *VC) frameCheck(st *State, reach Term, pos token.Pos) {
 		}
 	}
 	for name, sort := range vc.heapSort {
-		if name == "alloc" || strings.HasPrefix(name, "iter@") || strings.HasPrefix(name, "Local_") {
-			continue
+		if name == "alloc" || strings.HasPrefix(name, "iter@") || strings.HasPrefix(name, "Local_") || strings.HasPrefix(name, "$") {
+			continue // (ghost state -- names starting with $ -- is not memory)
 		}
 		cur := vc.heapGet(st, name, sort)
 		old := vc.heapGet(vc.entry, name, sort)
@@ -1059,6 +1064,17 @@ func (vc *VC) pureFieldApply(key string, fv Val, args []Val, rt types.Type) Val 
 	for _, a := range args {
 		sorts = append(sorts, vc.S.sortOf(a.typ))
 		ts = append(ts, vc.asTerm(a))
+	}
+	if tup, ok := rt.(*types.Tuple); ok {
+		if tup.Len() == 0 {
+			return Val{typ: rt}
+		}
+		var vs []Val
+		for i := 0; i < tup.Len(); i++ {
+			f := vc.declareFun(fmt.Sprintf("fieldfn.%s.%d", key, i), sorts, vc.S.sortOf(tup.At(i).Type()))
+			vs = append(vs, Val{t: app(f, ts...), typ: tup.At(i).Type()})
+		}
+		return Val{tuple: vs, typ: rt}
 	}
 	f := vc.declareFun("fieldfn."+key, sorts, vc.S.sortOf(rt))
 	return Val{t: app(f, ts...), typ: rt}
